@@ -41,6 +41,151 @@ func withHelpers(fn *ssa.Function, depth int) []*ssa.Function {
 	return out
 }
 
+// normAllocs makes a description independent of the names of local variables:
+// every "alloc:<name>" becomes "alloc:#1", "alloc:#2", … in order of first
+// appearance (the same local keeps the same number within the string).
+func normAllocs(s string) string {
+	const tag = "alloc:"
+	names := map[string]string{}
+	var out []byte
+	for i := 0; i < len(s); {
+		if i+len(tag) <= len(s) && s[i:i+len(tag)] == tag {
+			j := i + len(tag)
+			for j < len(s) && (s[j] == '_' || s[j] >= '0' && s[j] <= '9' || s[j] >= 'a' && s[j] <= 'z' || s[j] >= 'A' && s[j] <= 'Z' || s[j] >= 0x80) {
+				j++
+			}
+			name := s[i+len(tag) : j]
+			if _, ok := names[name]; !ok {
+				names[name] = "#" + string(rune('0'+len(names)+1))
+			}
+			out = append(out, tag...)
+			out = append(out, names[name]...)
+			i = j
+			continue
+		}
+		out = append(out, s[i])
+		i++
+	}
+	return string(out)
+}
+
+// digestExpr describes a value computed as h := ctor(args…); h.Write(in0); …;
+// h.Sum(x) — in the function that uses it, or in a same-package helper whose
+// successful return is that Sum (the values are then mapped to the arguments of
+// the helper call; a value that is neither a parameter nor a constant/function
+// of the helper maps to nil).
+type digestExpr struct {
+	ctor     *ssa.Call
+	ctorArgs []ssa.Value
+	inputs   []ssa.Value
+	sumArg   ssa.Value
+	at       ssa.Instruction // in the asking function: where the last input is consumed (last Write, or the helper call)
+}
+
+func digestOf(v ssa.Value, ctorID string) (*digestExpr, bool) {
+	v = engine.Unwrap(v)
+	idx := 0
+	if ex, ok := v.(*ssa.Extract); ok {
+		v, idx = ex.Tuple, ex.Index
+	}
+	sum, ok := v.(*ssa.Call)
+	if !ok {
+		return nil, false
+	}
+	if sum.Common().IsInvoke() && sum.Common().Method.Name() == "Sum" && idx == 0 {
+		ctor := isCallTo(sum.Common().Value, ctorID)
+		if ctor == nil || len(sum.Common().Args) != 1 {
+			return nil, false
+		}
+		fn := sum.Parent()
+		d := &digestExpr{ctor: ctor, ctorArgs: ctor.Common().Args, sumArg: sum.Common().Args[0]}
+		var writes []ssa.CallInstruction
+		for _, call := range engine.Calls(fn) {
+			cc := call.Common()
+			if cc.IsInvoke() && cc.Method.Name() == "Write" && cc.Value == sum.Common().Value {
+				writes = append(writes, call)
+			}
+		}
+		for i, w := range writes {
+			if !engine.Dominates(w, sum) || engine.InCycle(w) || (i > 0 && !engine.Dominates(writes[i-1], w)) {
+				return nil, false
+			}
+			d.inputs = append(d.inputs, w.Common().Args[0])
+		}
+		if len(writes) == 0 {
+			return nil, false
+		}
+		d.at = writes[len(writes)-1]
+		return d, true
+	}
+	h := sum.Common().StaticCallee()
+	if h == nil || len(h.Blocks) == 0 || sum.Parent() == nil || h.Pkg != sum.Parent().Pkg {
+		return nil, false
+	}
+	var inner *digestExpr
+	for _, r := range engine.Returns(h) {
+		if idx >= len(r.Results) {
+			return nil, false
+		}
+		res := engine.RetVal(r, idx)
+		if engine.IsNil(res) {
+			continue // a failing return hands back no digest
+		}
+		in, ok := digestOf(res, ctorID)
+		if !ok || inner != nil {
+			return nil, false
+		}
+		inner = in
+	}
+	if inner == nil {
+		return nil, false
+	}
+	mapv := func(x ssa.Value) ssa.Value {
+		if a := argOfParam(x, sum); a != nil {
+			return a
+		}
+		switch engine.Unwrap(x).(type) {
+		case *ssa.Const, *ssa.Function:
+			return x
+		}
+		return nil
+	}
+	d := &digestExpr{ctor: inner.ctor, at: sum, sumArg: mapv(inner.sumArg)}
+	for _, a := range inner.ctorArgs {
+		d.ctorArgs = append(d.ctorArgs, mapv(a))
+	}
+	for _, in := range inner.inputs {
+		m := mapv(in)
+		if m == nil {
+			return nil, false
+		}
+		d.inputs = append(d.inputs, m)
+	}
+	return d, true
+}
+
+// sliceRoot peels slice expressions off v: the value that is sliced in the end
+// (typically the local array) and the constant offset at which v starts in it.
+// ok is false when a low bound is not a constant.
+func sliceRoot(v ssa.Value) (root ssa.Value, lo int64, ok bool) {
+	v = engine.Unwrap(v)
+	for i := 0; i < 8; i++ {
+		sl, isSl := v.(*ssa.Slice)
+		if !isSl {
+			return v, lo, true
+		}
+		if sl.Low != nil {
+			k, isK := engine.ConstInt(sl.Low)
+			if !isK {
+				return nil, 0, false
+			}
+			lo += k
+		}
+		v = engine.Unwrap(sl.X)
+	}
+	return v, lo, true
+}
+
 // instrsWithHelpers visits the instructions of fn and of the same-package
 // helpers it calls directly.
 func instrsWithHelpers(fn *ssa.Function, visit func(ssa.Instruction)) {
